@@ -29,13 +29,14 @@ def search(S):
         n = int(rng.integers(2, 7))
         m = int(rng.integers(1, min(n, 3) + 1))
         # factorizations
-        P = rand_spd(rng, n)
+        # SPD matrices at every scale (a covariance of small quantities is as SPD as one with entries of order 1)
+        P = rand_spd(rng, n) * float([1.0, 1.0, 1e-6, 1e-10, 1e-14, 1e6][k % 6])
         Ps = ca.SX.sym("P", n, n)
         for nm, fn in (("ldl", util.ldl_symmetric_decomposition), ("udu", util.udu_symmetric_decomposition)):
             Lm, D = fn(Ps)
             f = ca.Function("f", [Ps], [Lm, D])
             Lv, Dv = (np.array(ca.DM(x)) for x in f(P))
-            ok = H.close(Lv @ Dv @ Lv.T, P, 1e-8) and H.close(np.diag(Lv), np.ones(n)) and H.close(Dv, np.diag(np.diag(Dv)))
+            ok = H.close(Lv @ Dv @ Lv.T, P, 1e-8, scale=float(np.max(np.abs(P)))) and H.close(np.diag(Lv), np.ones(n)) and H.close(Dv, np.diag(np.diag(Dv)))
             ok = ok and (H.close(np.triu(Lv, 1), 0 * Lv) if nm == "ldl" else H.close(np.tril(Lv, -1), 0 * Lv))
             S.check("util." + nm, "reconstruct", {"n": n, "P": P.tolist()}, ok, P.tolist(), (Lv @ Dv @ Lv.T).tolist(), "factor * D * factor^T != P or factor not unit triangular")
         # sqrt covariance predict
@@ -82,4 +83,4 @@ def search(S):
         S.check("util.rk4", "order4", {"lam": lam, "y": y0, "h": h}, abs(float(f(y0, h)) - want) <= 1e-9 * max(1.0, abs(want)), want, float(f(y0, h)), "rk4 on y'=lam y is not the degree-4 Taylor polynomial")
 
 
-H.run(search, "random sizes n in 2..6, m in 1..3: SPD matrices for LDL/UDU, well-conditioned lower-triangular W, dense F, SPD Q, decoupled and dense (H, Rs); rk4 on cubic and linear fields; reference = numpy; distinct = distinct (unit, input)")
+H.run(search, "random sizes n in 2..6, m in 1..3: SPD matrices for LDL/UDU at scales 1e-14 .. 1e6, well-conditioned lower-triangular W, dense F, SPD Q, decoupled and dense (H, Rs); rk4 on cubic and linear fields; reference = numpy; distinct = distinct (unit, input)")
